@@ -221,7 +221,9 @@ def gen_C20(rng, tier):
     for code, flags, p in cfgs:
         top = max_dense(code, p)
         # --- dense prefix
-        L.append('LEN %s %s %s 0 %d' % (code, flags, hx(p), min(dense, top + 1)))
+        # the reference builds every published codeword: keep the unary-heavy codes' dense prefix short
+        d = min(dense, 1 << 16) if code in ('rice', 'golomb', 'unary') else dense
+        L.append('LEN %s %s %s 0 %d' % (code, flags, hx(p), min(d, top + 1)))
         # --- around every power of two
         for i in range(1, 65):
             lo = max(0, (1 << i) - 6)
